@@ -3,6 +3,7 @@ package props
 import (
 	"fmt"
 	"math/big"
+	"math/bits"
 
 	bgpoly "github.com/tuneinsight/lattigo/v6/circuits/bgv/polynomial"
 	cklt "github.com/tuneinsight/lattigo/v6/circuits/ckks/lintrans"
@@ -1096,6 +1097,58 @@ func c09CKKS(ctx *core.RunCtx) *c09Scheme {
 				if text(r1) != before {
 					ctx.Fail("inputs", "ckks|Encoder(prec=128).Decode|returned-values-alias-scratch", "the values that Decode returned in a %T (receiver kind %d) changed when the encoder was used again: they point into its buffers", r1, kind)
 					return false
+				}
+			}
+			// an encoding does not depend on what the encoder encoded or decoded before: every input kind, full and
+			// short vectors, real inputs after complex ones (the imaginary parts of the working buffer)
+			{
+				m := n
+				if g.Next()%2 == 0 {
+					m = 1 + int(g.Next()%uint64(n))
+				}
+				var vals any
+				ik := int(g.Next() % 4)
+				switch ik {
+				case 0:
+					v := make([]*big.Float, m)
+					for i := range v {
+						if g.Next()%8 != 0 { // some entries absent: they stand for zero
+							v[i] = new(big.Float).SetPrec(128).SetFloat64(rf(g))
+						}
+					}
+					vals = v
+				case 1:
+					v := make([]float64, m)
+					for i := range v {
+						v[i] = rf(g)
+					}
+					vals = v
+				case 2:
+					v := make([]complex128, m)
+					for i := range v {
+						v[i] = complex(rf(g), rf(g))
+					}
+					vals = v
+				default:
+					vals = mkVals()[:m]
+				}
+				q1, q2 := ckks.NewPlaintext(cp, cp.MaxLevel()), ckks.NewPlaintext(cp, cp.MaxLevel())
+				if cp.RingType() == ring.Standard && g.Next()%3 == 0 {
+					ld := bits.Len(uint(m - 1)) // sparse packing
+					q1.LogDimensions.Cols, q2.LogDimensions.Cols = ld, ld
+				}
+				e1 := c09Exec(func() error { return eb.Encode(vals, q1) })
+				e2 := c09Exec(func() error { return ckks.NewEncoder(cp, 128).Encode(vals, q2) })
+				ctx.Count("oracle.encoder-twin", 1)
+				if e1.kind != e2.kind {
+					ctx.Fail("status", "ckks|Encoder(prec=128).Encode|status", "Encode(%T of %d values) on a used arbitrary-precision encoder: %s, on a new encoder: %s", vals, m, e1, e2)
+					return false
+				}
+				if e1.kind == 0 {
+					if ok, w := eqPoly(cp.RingQ(), q1.Value, q2.Value); !ok {
+						ctx.Fail("result", "ckks|Encoder(prec=128).Encode|history", "Encode(%T of %d values, log-slots %d) on an arbitrary-precision encoder that encoded and decoded before differs from a new encoder: %s", vals, m, q1.LogDimensions.Cols, w)
+						return false
+					}
 				}
 			}
 		}
